@@ -8,7 +8,7 @@ SEEDS=${@:-$(ls seeded | grep -v RESULTS)}
 one() {
   n=$1
   id=$(python3 -c "import json;print(json.load(open('/verif/seeded/$n/meta.json'))['property'])")
-  chk=$id; [ "$n" = "C19-1" ] && chk=C17; [ "$n" = "C09-3" ] && chk=C07
+  chk=$id; [ "$n" = "C19-1" ] && chk=C17; [ "$n" = "C09-3" ] && chk=C07; [ "$n" = "C03-5" ] && chk=C01
   wt=/tmp/smw_$n; rm -rf $wt; git -C /repo worktree add -q --detach $wt HEAD 2>/dev/null || { echo -e "$n\t$chk\t-\terror(worktree)"; return; }
   if ! git -C $wt apply /verif/seeded/$n/patch.diff 2>/dev/null; then echo -e "$n\t$chk\t-\terror(patch)"; git -C /repo worktree remove --force $wt; return; fi
   mkdir -p /tmp/smw_ev_$n
